@@ -25,6 +25,9 @@ def tlv_items_of(line):
     j = line.find("]", i)
     body = line[i + 6:j]
     items = body.split(",") if body else []
+    # the payload of the "fewer than three bytes remain" error is not pinned by any property
+    # (C11 names the payload only in the overrun case): compare the kind alone
+    items = ["!leftovers" if it.startswith("!leftovers:") else it for it in items]
     rest = dict(t.split("=", 1) for t in line[j + 1:].split(" ") if "=" in t)
     return items, rest
 
@@ -107,13 +110,8 @@ class C11(Prop):
             for c in cuts:
                 ops.append("tlv " + G.spec(sec[:c]))
         # boundary lengths
-        for ln in (0, 1, 255, 256, 65535):
-            v = bytes([0xAB]) * ln
-            s = G.tlv_enc(4, v)
-            ops.append("tlv " + G.spec(s))
-            ops.append("tlv " + G.spec(s + G.tlv_enc(5, b"x")))
-            ops.append("tlv " + G.spec(s[:-1]))
-            ops.append("tlv " + G.spec(s + b"\x01\x00"))
+        for sec in G.tlv_boundary_sections(rng):
+            ops.append("tlv " + G.spec(sec))
         # random
         for _ in range(2000 if tier == "quick" else 100000):
             ops.append("tlv " + C.hexs(bytes(rng.choice([0, 0, 1, 2, 3, rng.getrandbits(8)]) for _ in range(rng.randint(0, 24)))))
@@ -142,7 +140,7 @@ class C11(Prop):
                 sec = C.unhex(C.fields(il)[1]["tb"])
             else:
                 sec = op_bytes(op)
-            want = G.tlv_walk_oracle(sec)
+            want = ["!leftovers" if w.startswith("!leftovers:") else w for w in G.tlv_walk_oracle(sec)]
             t = tlv_items_of(il)
             if t is None:
                 out.append(Violation("relation", op, il, None, "no item list"))
